@@ -12,10 +12,26 @@ def placeGlobal : List Stmt := [.setInUse true, .call "GlobalPlacer::place", .se
 
 /-- A stage that throws (no callback needed) leaves the circuit marked in use for ever. -/
 theorem flag_stays_set_after_exception :
-    execPlacement [] placeGlobal ⟨[], true⟩ ⟨false, []⟩ = ⟨.thrown, ⟨true, []⟩, []⟩ := by decide
+    execPlacement [] [] placeGlobal (.done true) ⟨false, []⟩ = ⟨.thrown, ⟨true, []⟩, []⟩ := by decide
 
 /-- The pre-fix body is not guarded. -/
 theorem not_guarded : guardedFirst placeGlobal = false := by decide
+
+/-- The first repair of F6 used a guard whose destructor *clears* the flag (`~InUseGuard() { flag_ = false; }`):
+correct for a single call, but not re-entrant. -/
+def clearingCalls : List FnDef := [
+  { name := "placeDetailed", params := [], body := [.scopeGuard, .call "DetailedPlacer::place"] },
+  { name := "legalize", params := [], body := [.scopeGuard, .call "DetailedPlacer::legalize"] }]
+
+def setRowsSkeleton : List FnDef := [{ name := "setRows", params := ["r"], body := [.checkNotInUse, .assign "rows_"] }]
+
+/-- With the clearing guard, a callback of `placeDetailed` that calls `legalize` on the same circuit
+(nested call ends: `inuse=0`) finds the circuit modifiable although the outer call is still
+running: the following `setRows` is accepted and writes `rows_`. -/
+theorem nested_call_releases_outer_flag :
+    execPlacement setRowsSkeleton clearingCalls [.scopeGuard, .call "DetailedPlacer::place"]
+      (.nested "legalize" (.done false) (.setter ⟨"setRows", ⟨3, 0, [⟨2, [], 0⟩]⟩⟩ (.cbEnd false (.done false)))) ⟨false, []⟩
+      = ⟨.normal, ⟨false, ["rows_"]⟩, ["end ok inuse=0", "set setRows ok"]⟩ := by decide
 
 /-- F14: `Circuit::setNets` before the fix validated with `assert` only. -/
 def setNets : List Stmt := [
